@@ -136,12 +136,14 @@ MC.update({
     "C12": {"quick": [_mc("2c"), _mc("2c_nf0")], "thorough": [_mc("2c"), _mc("2c_nf0")]},
     "C13": {"quick": [_mc("wrap_fixed"), _mc("wrapw_fixed"), _mc("wrap_code", "Refines")],
             "thorough": [_mc("wrap_fixed"), _mc("wrapw_fixed"), _mc("wrap_code", "Refines")]},
+    "C16": {"quick": [_mc("cache"), _mc("cache_nf0"), _mc("bug_cache", "Refines")],
+            "thorough": [_mc("cache"), _mc("cache_nf0"), _mc("cache2"), _mc("bug_cache", "Refines")]},
     "C18": {"quick": [], "thorough": []},
 })
 for _p in ["C08", "C09", "C11", "C13"]:
     PROPS[_p] = {"level": "model_checking", "conc": True, "assumptions": _A}
 PROPS["C18"] = {"level": "fault_enumeration", "conc": True, "assumptions": _A + ["panics of RefCnt::inc/clone of third-party pointer types are out of scope"]}
-PROPS["C16"] = {"level": "exploration", "conc": True, "assumptions": _A}
+PROPS["C16"] = {"level": "model_checking", "conc": True, "assumptions": _A}
 PROPS["C17"] = {"level": "exploration", "conc": True, "assumptions": _A + ["projection chains: container, Map (static), Box<dyn DynAccess>, Map of Map, AccessConvert, ArcSwapAny::map over a reference"]}
 NONTRIVIAL["C17"] = ("distinct executions in which a projection guard is dereferenced after a write", lambda evs: _has(evs, lambda e: e["e"] == "deref" and e.get("k") == "p") and _has(evs, lambda e: e["e"] == "w"))
 CONC_PLAN["quick"] += [("panic_help", 400), ("help2w", 2500), ("aba", 500), ("adv", 150), ("solo", 1500), ("solo2c", 300), ("access", 600), ("cache2", 1500), ("serde", 500)]
@@ -165,7 +167,7 @@ MANIFEST_TEXT = {
     "C13": {"text": "GenMod = 2 in ArcSwapImpl: the design of 1.7.1 (WrapMode code) violates NoPanic (negative control = finding F1), the repaired design (fixed) holds all invariants incl. the nested case; on the real crate the generation counter is preset next to the wrap (verif::set_generation), incl. the wrap inside a writer's nested load at every reader position; any panic, abort or hang of an operation is a violation."},
     "C14": {"text": "All sequential programs of length <= 2 (thorough: 3) plus random deeper ones are enumerated by TLC from spec/SeqGen.tla and executed under DefaultStrategy, the fallback-only strategy and RwLock<()>; ArcSwapAbs pins every returned identity and every count in a sequential run; the identities must also agree across the strategies."},
     "C15": {"text": "All operation sequences (into_ptr, from_ptr, as_ptr, inc, dec, clone, drop, upgrade, drop of the target) up to length 4/5 from 20 initial count states are enumerated by TLC from spec/RefCntLaws.tla with the predicted counts and executed on the real impls for 4 pointee layouts."},
-    "C16": {"text": "Cache clauses of ArcSwapAbs (value returned was stored during the call, i.e. current-or-newer and never older than the previous result) on concurrent executions incl. a store landing at every point inside Cache::load followed by address reuse; sequential cache programs via SeqGen."},
+    "C16": {"text": "Cache::new / Cache::load (Relaxed pointer compare + load_full, release of the superseded value) are actions of ArcSwapImpl, model-checked against the cache clauses of ArcSwapAbs (seeded model bug 'never revalidates' must be caught). Cache clauses of ArcSwapAbs (value returned was stored during the call, i.e. current-or-newer and never older than the previous result) on concurrent executions incl. a store landing at every point inside Cache::load followed by address reuse; sequential cache programs via SeqGen."},
     "C17": {"text": "Projection guards through Access, Map (static), Box<dyn DynAccess>, Map of Map, AccessConvert and ArcSwapAny::map: the snapshot shown is one value stored during the load, stays the same and alive for the guard's life while stores happen."},
     "C18": {"text": "Fault enumeration: panicking destructors at every site where the library drops a value (displaced by store, rejected by compare_and_swap/rcu, candidate of a helped fallback load, guard drop) and panicking rcu closures on attempt 1..3, under contention; after unwinding the ledger clauses must hold (tagged C18)."},
     "C19": {"text": "TLC evaluates the auto-trait algebra of spec/AutoTraits.tla (220 instantiations) incl. its soundness clause; rustc answers the same 440 questions about the real types through a compile-time probe; each row must be sound and, except DynGuard, exact.", "technique": "TLA+ table (AutoTraits.tla) evaluated by TLC, compared with rustc's answers"},
